@@ -7,7 +7,10 @@ REQUIRED_THEOREMS = ["Gv.Props.C10." + n for n in [
     "goGen_intn_lt", "runSeed_is_runTape", "shuffle_is_row_permutation", "perm_is_permutation", "sample_distinct_rows",
     "columns_distinct", "bootstrap_columns_original", "bootstrap_every_site_reachable", "window_is_contiguous",
     "window_every_offset_reachable", "mutate_frame", "permProg_wf", "shuffleSequences_wf", "bootstrap_wf",
-    "sampleRows_wf", "randSubAlign_wf", "bootstrap_every_seed", "shuffle_every_seed", "rarefy_keeps_counted_rows_in_order"]]
+    "sampleRows_wf", "randSubAlign_wf", "bootstrap_every_seed", "shuffle_every_seed", "rarefy_keeps_counted_rows_in_order",
+    "addGaps_only_adds_gaps", "recombine_copies_within_columns", "swap_keeps_column_multisets",
+    "rogue_permutes_chosen_rows_and_partitions_names", "addGaps_every_seed", "swap_every_seed", "recombine_every_seed",
+    "addGaps_wf", "swapRows_wf", "recombine_wf", "simulateRogue_wf"]]
 LEVEL_TEXT = ("Lean theorems over programs-with-random-draws (RProg): each modelled randomised operation keeps its promise for "
               "EVERY admissible answer tape (hence every seed: runGen_is_runTape), and support theorems exhibit a tape for every "
               "admissible outcome (each site bootstrapped, each window offset incl. the last, each row sampled); tied to /repo by "
@@ -19,9 +22,10 @@ TECHNIQUE = "Lean 4 proof (free monad over random draws, all tapes; support by w
 RULE = ("alignments of 1..6 rows x 1..12 columns (nucleotide / protein, gaps and specials), each randomised operation with "
         "rates / proportions / lengths in and at the borders of their domains (0, 1, 1/2, out-of-range), seeds drawn from "
         "VERIF_SEED; non-trivial = at least 2 rows and 2 columns and a parameter strictly inside its domain")
-PARTIAL = ["proved in Lean for all tapes: ShuffleSequences, rand.Perm, Sample, RandSubAlign (both modes), BuildBootstrap (invariant + "
-           "support), Mutate (frame), Rarefy (sub-list of counted rows); NOT yet theorems (checked only by the decidable promise evaluated on the implementation's "
-           "output and by exact replay): AddGaps, Swap, Recombine, SimulateRogue",
+PARTIAL = ["proved in Lean for all outcomes of the draws (hence every seed): ShuffleSequences, rand.Perm, Sample, RandSubAlign (both modes), "
+           "BuildBootstrap (invariant + support), Mutate (frame), Rarefy (sub-list of counted rows), AddGaps (only adds gaps), Swap "
+           "(column multisets, rectangular input), Recombine (copies within columns, rectangular input, len <= L), SimulateRogue "
+           "(chosen rows permuted, others untouched, names partitioned)",
            "ShuffleSites is not modelled yet",
            "support ('positive probability') is proved in the ideal-source reading: an admissible tape exists for every admissible "
            "outcome; the statistical run (`rnd support`: 3000 independent runs per case, a missing outcome has probability < 1e-30 on an "
